@@ -3,6 +3,7 @@
 -/
 import Knx.Text
 import Knx.TunnelText
+import Knx.RouterText
 
 namespace Driver
 open Knx Knx.Text
@@ -68,6 +69,7 @@ def runLine (line : String) : String :=
   match line.splitOn " " with
   | [] => "bad-op"
   | "tun" :: _ => (Knx.Tun.runScript line).getD "bad-op"
+  | "rtr" :: _ => (Knx.Rtr.runScript line).getD "bad-op"
   | op :: args =>
     match runWire op args with
     | some s => s
